@@ -525,6 +525,20 @@ func genDecimalForInt(r *gen.RNG) ref.Bits {
 		c, _ := r.Coef()
 		nd := ref.NumDigits(c)
 		return ref.Encode(r.Bool(), c, -nd-r.Intn(5))
+	case 8: // the decimal point placed inside / right at the ends of the coefficient, for every coefficient class
+		c, _ := r.Coef()
+		if r.Chance(1, 3) {
+			c = new(big.Int).SetUint64(r.U64()) // one word, 19 or 20 digits
+		}
+		nd := ref.NumDigits(c)
+		if nd == 0 {
+			return ref.Encode(r.Bool(), c, r.Range(-40, 40))
+		}
+		e := -r.Pick(nd-1, nd-1, nd, nd+1, nd-2, r.Range(0, nd+2))
+		if e > 0 {
+			e = 0
+		}
+		return ref.Encode(r.Bool(), c, e)
 	case 4: // large exponents
 		c, _ := r.Coef()
 		return ref.Encode(r.Bool(), c, r.Pick(ref.MaxExp, 6000, 100, 40, 20, 19, 18, 10, r.Range(0, 60)))
